@@ -38,7 +38,10 @@ var operatorOracle = map[string]string{
 
 // tokenTagOf: the constant Tag of a Token value built by the lexer helpers.
 func tokenTagOf(p *Program, v ssa.Value) string {
-	r := p.Render(v)
+	return tokenTagOfText(p.Render(v))
+}
+
+func tokenTagOfText(r string) string {
 	if strings.HasPrefix(r, "lang.Token{Tag: ") {
 		inner := strings.TrimPrefix(r, "lang.Token{Tag: ")
 		if i := strings.IndexAny(inner, ",}"); i >= 0 {
@@ -59,7 +62,7 @@ func runC13(c *Ctx) {
 		got := map[string]string{}
 		identOK := false
 		for _, rc := range p.successResults(id) {
-			tag := tokenTagOf(p, rc.Ret.Results[0])
+			tag := tokenTagOfText(rc.Value)
 			if tag == "Ident" {
 				identOK = rc.Value == "lang.Token{Tag: Ident, Pos: l.tokenStart, Len: (l.pos - l.tokenStart)}"
 				continue
@@ -480,7 +483,59 @@ func c13Escapes(c *Ctx) {
 	c.check(errs["unknown"], "R3", "unknown-escape-is-error", p.Pos(es.Pos()), "any other escape letter is an error", "no `unknown escape char` error arm")
 	c.check(errs["trailing"], "R3", "trailing-backslash-is-error", p.Pos(es.Pos()), "a trailing backslash is an error, detected before the next byte is read", "the trailing-backslash error is not raised under i == len(str)-1")
 	// funnel: GetString on an ExprLiteral token
-	n := 0
+	le := literalEvaluator(p)
+	for i, bad := range le.outside {
+		c.violated("R3", fmt.Sprintf("literal-text-read outside #%d", i+1), bad, "the text of a literal token is read outside the evaluator's literal arm: string literals evaluated on this path skip escape processing and validation")
+	}
+	for i, call := range le.reads {
+		c.ok("R3", fmt.Sprintf("literal-text-read #%d", i+1), p.InstrPos(call), "literal text is read in the literal arm of "+shortName(le.fn))
+	}
+	if len(le.reads) < 3 {
+		c.undecided("R3", "literal-text-reads", "", fmt.Sprintf("%d reads of literal token text found, 3 confirmed by hand", len(le.reads)))
+	}
+	// Str / Ident texts go through evalString
+	if le.fn != nil {
+		ok := false
+		for _, call := range callsIn(le.fn) {
+			if staticCalleeIs(call, "(*lang.Evaluator).evalString") {
+				if gs, _ := callOf(call.Common().Args[1]); gs != nil && staticCalleeIs(gs, "(*lang.Lexer).GetString") {
+					ok = p.Render(gs.Call.Args[1]) == "&"+le.lit+".token"
+				}
+				ms := p.maySetOf(le.fn, le.lit+".token.Tag", []string{"Str", "Ident", "Regex", "Num", "True", "False", "Null", "other"})
+				tags := strings.Join(ms.At(call.Block()), ",")
+				c.check(tags == "Ident,Str", "R3", "string-literals-use-evalString", p.InstrPos(call), "Str and Ident literal texts are unescaped by evalString", "evalString is applied to literal kinds {"+tags+"}")
+			}
+		}
+		c.check(ok, "R3", "evalString-argument", p.Pos(le.fn.Pos()), "evalString(text of the literal token)", "evalString is not applied to the literal token's own text")
+	}
+}
+
+// literalEvaluator finds where literal tokens are evaluated: the ExprLiteral arm of evalExpr, or a
+// private helper that this arm hands the node to.
+type litEval struct {
+	fn      *ssa.Function
+	lit     string // rendering of the *ExprLiteral there
+	reads   []ssa.CallInstruction
+	outside []string
+}
+
+func literalEvaluator(p *Program) litEval {
+	var le litEval
+	ee := p.LangFunc("(*Evaluator).evalExpr")
+	if ee == nil {
+		return le
+	}
+	inLiteralArm := func(in ssa.Instruction) bool {
+		if in.Parent() != ee {
+			return false
+		}
+		for _, tc := range typeCasesOn(ee, ee.Params[1]) {
+			if tc.TypeName == "ExprLiteral" && caseRegion(tc)[in.Block()] {
+				return true
+			}
+		}
+		return false
+	}
 	for _, fn := range p.Funcs {
 		if !p.InLang(fn) {
 			continue
@@ -489,8 +544,7 @@ func c13Escapes(c *Ctx) {
 			if !staticCalleeIs(call, "(*lang.Lexer).GetString") {
 				continue
 			}
-			arg := call.Common().Args[1]
-			fa, ok := arg.(*ssa.FieldAddr)
+			fa, ok := call.Common().Args[1].(*ssa.FieldAddr)
 			if !ok {
 				continue
 			}
@@ -498,37 +552,33 @@ func c13Escapes(c *Ctx) {
 			if !ok || sf.Struct == nil || sf.Struct.Obj().Name() != "ExprLiteral" {
 				continue
 			}
-			n++
-			inArm := false
-			if shortName(fn) == "(*lang.Evaluator).evalExpr" {
-				for _, tc := range typeCasesOn(fn, fn.Params[1]) {
-					if tc.TypeName == "ExprLiteral" && caseRegion(tc)[call.Block()] {
-						inArm = true
+			okSite := inLiteralArm(call)
+			if !okSite && fn != ee && fn.Parent() == nil {
+				// a helper that receives the literal node and is only called from the literal arm
+				if _, isParam := fa.X.(*ssa.Parameter); isParam {
+					sites := p.CallSitesOf(fn)
+					okSite = len(sites) > 0
+					for _, cs := range sites {
+						if !p.inTestFile(cs.Parent()) && !inLiteralArm(cs) {
+							okSite = false
+						}
 					}
 				}
 			}
-			c.check(inArm, "R3", fmt.Sprintf("literal-text-read #%d in %s", n, shortName(fn)), p.InstrPos(call), "literal text is read in evalExpr's literal arm", "the text of a literal token is read outside evalExpr's literal arm: string literals evaluated on this path skip escape processing and validation")
-		}
-	}
-	if n < 3 {
-		c.undecided("R3", "literal-text-reads", "", fmt.Sprintf("%d reads of literal token text found, 3 confirmed by hand", n))
-	}
-	// Str / Ident texts go through evalString
-	ee := p.LangFunc("(*Evaluator).evalExpr")
-	if ee != nil {
-		ok := false
-		for _, call := range callsIn(ee) {
-			if staticCalleeIs(call, "(*lang.Evaluator).evalString") {
-				if gs, _ := callOf(call.Common().Args[1]); gs != nil && staticCalleeIs(gs, "(*lang.Lexer).GetString") {
-					ok = p.Render(gs.Call.Args[1]) == "&expr.(*lang.ExprLiteral)#0.token"
-				}
-				ms := p.maySetOf(ee, "expr.(*lang.ExprLiteral)#0.token.Tag", []string{"Str", "Ident", "Regex", "Num", "True", "False", "Null", "other"})
-				tags := strings.Join(ms.At(call.Block()), ",")
-				c.check(tags == "Ident,Str", "R3", "string-literals-use-evalString", p.InstrPos(call), "Str and Ident literal texts are unescaped by evalString", "evalString is applied to literal kinds {"+tags+"}")
+			if !okSite {
+				le.outside = append(le.outside, p.InstrPos(call))
+				continue
 			}
+			if le.fn != nil && le.fn != fn {
+				le.outside = append(le.outside, p.InstrPos(call))
+				continue
+			}
+			le.fn = fn
+			le.lit = p.Render(fa.X)
+			le.reads = append(le.reads, call)
 		}
-		c.check(ok, "R3", "evalString-argument", p.Pos(ee.Pos()), "evalString(text of the literal token)", "evalString is not applied to the literal token's own text")
 	}
+	return le
 }
 
 // R6 newline-flag-readers
@@ -619,26 +669,35 @@ func isParselet(fn *ssa.Function) bool {
 // numeric literal evaluation
 func c13NumericEvaluation(c *Ctx) {
 	p := c.P
-	c.note("R2 numeric-literal-evaluation: evalExpr turns a Num token into a number with strconv.ParseFloat(text, 64) and nothing else (no integer / radix-inferring parser in front of it); a failure is the runtime error `could not parse number`.")
-	ee := p.LangFunc("(*Evaluator).evalExpr")
+	c.note("R2 numeric-literal-evaluation: the literal arm of the evaluator turns a Num token into a number with strconv.ParseFloat(text, 64) and nothing else (no integer / radix-inferring parser in front of it); a failure is the runtime error `could not parse number`.")
+	le := literalEvaluator(p)
+	ee := le.fn
 	if ee == nil {
-		c.undecided("R2", "evalExpr", "", "anchor not found")
+		c.undecided("R2", "literal-evaluator", "", "the function that evaluates literal tokens was not found")
 		return
+	}
+	abbrevLit := func(s string) string {
+		t := "&" + le.lit + ".token"
+		return strings.ReplaceAll(s, "e.lexer.src["+t+".Pos:("+t+".Pos + "+t+".Len)]", "TEXT")
 	}
 	var parsers []string
 	for _, call := range callsIn(ee) {
 		if f := call.Common().StaticCallee(); f != nil && strings.HasPrefix(f.String(), "strconv.") {
-			parsers = append(parsers, abbrevLiteral(p.Render(call.Value())))
+			parsers = append(parsers, abbrevLit(p.Render(call.Value())))
 		}
 	}
 	want := "strconv.ParseFloat(TEXT, 64)"
 	c.check(len(parsers) == 1 && parsers[0] == want, "R2", "numeric-literal-parser", p.Pos(ee.Pos()), want, "numeric literals are converted by {"+strings.Join(parsers, " ; ")+"}; documented: digit sequences with an optional fraction, read by ParseFloat alone (a base-inferring integer parser reads 010 as 8)")
-	ms := p.maySetOf(ee, "expr.(*lang.ExprLiteral)#0.token.Tag", []string{"Str", "Ident", "Regex", "Num", "True", "False", "Null", "other"})
+	ms := p.maySetOf(ee, le.lit+".token.Tag", []string{"Str", "Ident", "Regex", "Num", "True", "False", "Null", "other"})
 	got := map[string]bool{}
-	for _, rc := range p.successResults(ee) {
-		tags := ms.At(rc.Ret.Block())
+	for _, r := range returnsOf(ee) {
+		res := effectiveResults(r)
+		if errIdx := errResultIndex(ee.Signature); errIdx >= 0 && !EKOf(p).KindsAt(res[errIdx], FactsOf(ee).At(r.Block())).Has(KNil) {
+			continue
+		}
+		tags := ms.At(r.Block())
 		if len(tags) == 1 && tags[0] == "Num" {
-			got[abbrevLiteral(rc.Value)] = true
+			got[abbrevLit(p.Render(res[0]))] = true
 		}
 	}
 	c.check(len(got) == 1 && got["&lang.Cell{Value: lang.NewValue(strconv.ParseFloat(TEXT, 64)#0)}"], "R2", "numeric-literal-value", p.Pos(ee.Pos()), "the literal's value is ParseFloat's result", "a numeric literal evaluates to {"+keysOf(got)+"}")
